@@ -258,6 +258,22 @@ func (d *domain) finish() {
 	d.computeAssumes()
 	d.prune()
 	d.labelContexts()
+	if len(d.optionalUsed) > 0 {
+		var ws []string
+		for w := range d.optionalUsed {
+			ws = append(ws, w)
+		}
+		sort.Strings(ws)
+		d.notes = append(d.notes, fmt.Sprintf("domain assumption 'the optional mutex is set' decided %d nil tests: %s", len(ws), strings.Join(ws, " ")))
+	}
+	if len(d.ignoredUsed) > 0 {
+		var ws []string
+		for w, n := range d.ignoredUsed {
+			ws = append(ws, fmt.Sprintf("%s x%d", w, n))
+		}
+		sort.Strings(ws)
+		d.notes = append(d.notes, "pseudo-locations without a claim (classes.json ignored_locations): "+strings.Join(ws, ", "))
+	}
 }
 
 func (d *domain) entryOverrides() {
